@@ -272,7 +272,7 @@ class Gen:
                 return s, kind
         return 'x', 'structured'
 
-    def words(self, k=None):
+    def words(self, k=None, tcomma=None):
         """pattern assembled from k intended names: (pattern, [names], trailing comma?).  A name is made of
         letters / digits / '_' and of blanks, commas and colons written as escapes, so that by construction it is
         ONE name without a range; names are joined by non-empty blank runs; the whole is padded with blanks"""
@@ -298,7 +298,8 @@ class Gen:
         ws = [' ', ' ', ' ', '  ', '\t', ' \n', '   ']
         pad = lambda: r.choice(['', '', '', ' ', '  ', '\t', ' \n '])
         out = pad() + ''.join(t + (r.choice(ws) if i + 1 < len(texts) else '') for i, t in enumerate(texts))
-        tcomma = r.random() < 0.08
+        if tcomma is None:
+            tcomma = r.random() < 0.08
         if tcomma:
             out += pad() + ','
         out += pad()
@@ -357,13 +358,42 @@ class Spaces:
             return [A('product')] + [self.ser(c) for c in sp.spaces]
         return [A('scalar' if sp in self.S else 'vector'), str(sp.name)]
 
+    def ser_comps(self, comps):
+        """serialisation of the product of the given component spaces, from the construction (not from the object)"""
+        return [A('product')] + [[A('scalar' if c in self.S else 'vector'), str(c.name)] for c in comps]
+
+    def comps(self, sser):
+        """the component spaces a serialised product space was built from (None for a scalar / vector space):
+        what the space is *meant* to be, independent of what ProductSpace(...) returned"""
+        if not (isinstance(sser, list) and sser and str(sser[0]) == 'product'):
+            return None
+        by_name = {str(x.name): x for x in self.S + self.V}
+        return [by_name[str(c[1])] for c in sser[1:]]
+
+    def one(self):
+        """product spaces with exactly ONE component (scalar, vector, and the product of such a product):
+        (space, serialisation, [component])"""
+        from sympde.topology.space import ProductSpace
+        out = []
+        for c, wrap in ((self.S[1], 1), (self.V[1], 1), (self.S[2], 2)):
+            P = ProductSpace(c)
+            if wrap == 2:
+                P = ProductSpace(P)
+            out.append((P, self.ser_comps([c]), [c]))
+        return out
+
     def fixed(self):
-        """one scalar, one vector, a 2- and a 3-component product space, with their serialisations"""
-        sps = [self.S[0], self.V[0], self.S[0] * self.V[0], self.S[0] * self.V[0] * self.S[1]]
-        return [(x, self.ser(x)) for x in sps]
+        """one scalar, one vector, a 2- and a 3-component product space and the one-component products:
+        (space, serialisation, components or None)"""
+        prods = [[self.S[0], self.V[0]], [self.S[0], self.V[0], self.S[1]]]
+        out = [(self.S[0], self.ser(self.S[0]), None), (self.V[0], self.ser(self.V[0]), None),
+               (self.S[0] * self.V[0], self.ser_comps(prods[0]), prods[0]),
+               (self.S[0] * self.V[0] * self.S[1], self.ser_comps(prods[1]), prods[1])]
+        return out + self.one()
 
     def random(self, rng):
-        """(space object, serialised space)"""
+        """(space object, serialised space); the serialisation of a product is that of the components it was
+        built from (sp.comps(ser) gives them back)"""
         from sympde.topology.space import ProductSpace
         k = rng.random()
         if k < 0.25:
@@ -374,32 +404,38 @@ class Spaces:
             return s, [A('vector'), str(s.name)]
         if k < 0.5:
             return rng.choice([None, 'V', 3]), A('notspace')
-        n = rng.choice([2, 2, 3, 4])
+        n = rng.choice([1, 2, 2, 2, 3, 4])
         comps = [rng.choice(self.S + self.V) for _ in range(n)]
         P = ProductSpace(*comps)
-        ser = [A('product')] + [[A('scalar' if c in self.S else 'vector'), str(c.name)] for c in P.spaces]
-        return P, ser
+        return P, self.ser_comps(comps)
 
-    def names_for(self, g, rng, space):
-        """a pattern that mostly fits the shape of the space"""
+    def names_for(self, g, rng, space, comps=None):
+        """a pattern that mostly fits the shape of the space (comps: the components of a product space)"""
         from sympde.topology.space import ProductSpace
-        if isinstance(space, ProductSpace) and rng.random() < 0.8:
-            n = len(space.spaces) + rng.choice([0, 0, 0, 0, 0, -1, 1])
+        if comps is None and isinstance(space, ProductSpace):
+            comps = list(space.spaces)
+        if comps is not None and rng.random() < 0.8:
+            n = len(comps) + rng.choice([0, 0, 0, 0, 0, -1, 1])
             k = rng.random()
             base = rng.choice('uvwpq')
             if k < 0.3:
                 return '%s:%d' % (base, max(0, n))
             if k < 0.6:
-                return ', '.join('%s%d' % (base, i) for i in range(max(1, n)))
+                s = ', '.join('%s%d' % (base, i) for i in range(max(1, n)))
+                if n <= 1 and rng.random() < 0.7:
+                    # one name for one component: a singleton needs the trailing comma / a one-name range
+                    s = rng.choice([s + ',', s + ' ,', ' %s, ' % s, '%s(%d:%d)' % (base, n, n + 1), '%s_:1' % base])
+                return s
             if k < 0.8:
                 cont = [rng.choice(['%s%d' % (base, i), '%s%d_:2' % (base, i), '%s%d(:3)' % (base, i)]) for i in range(max(1, n))]
                 return cont if rng.random() < 0.5 else tuple(cont)
             return g.pattern()
         k = rng.random()
-        if isinstance(space, ProductSpace):
+        if comps is not None:
             # blank-separated lists with escapes, about as many names as components
             if k < 0.6:
-                return g.words(max(0, len(space.spaces) + rng.choice([0, 0, 0, 0, -1, 1])))[0]
+                kk = max(0, len(comps) + rng.choice([0, 0, 0, 0, -1, 1]))
+                return g.words(kk, tcomma=(rng.random() < 0.6) if kk == 1 else None)[0]
             return g.pattern()
         if k < 0.2:
             return rng.choice('uvwpq') + rng.choice(['', '1', '_a', ':3', ':2, q', ', r, s'])
@@ -484,14 +520,20 @@ def correspondence(ctx):
             cases.append((op, 'C20 %s %s %s' % (op, dumps(sser), dumps(ser_pat(p))), impl, (p, sser)))
 
     # the single-name entry point on a fixed scalar, vector and two product spaces
-    for space, sser in sp.fixed():
+    # and on the one-component products (there a singleton container / one-name range is the fitting shape)
+    for space, sser, comps in sp.fixed():
         for p, _ in ELEM_FIXED:
             elem_case(space, sser, p)
+        for p, _, _ in ONE_FIXED:
+            elem_case(space, sser, p)
         for _ in range(n_words // 10):
-            elem_case(space, sser, g.words()[0])
+            if comps is not None and len(comps) == 1:
+                elem_case(space, sser, g.words(rng.choice([1, 1, 1, 0, 2]), tcomma=rng.random() < 0.6)[0])
+            else:
+                elem_case(space, sser, g.words()[0])
     for _ in range(n_elem):
         space, sser = sp.random(rng)
-        p = sp.names_for(g, rng, space)
+        p = sp.names_for(g, rng, space, sp.comps(sser))
         if isinstance(p, str) and too_big(p):
             continue
         elem_case(space, sser, p)
@@ -552,6 +594,8 @@ def correspondence(ctx):
             p, sser = extra
             c.count('%s:%s' % (kind, impl if impl.startswith('err') else 'ok'))
             c.count('space:' + (str(sser[0]) if isinstance(sser, list) else 'notspace'))
+            if isinstance(sser, list) and str(sser[0]) == 'product':
+                c.count('product-components:%d' % (len(sser) - 1))
             c.nontrivial.add(line)
     return c
 
@@ -615,19 +659,29 @@ def check_pattern(o, p, kw, expand, symbols):
     return None
 
 
-def check_elements(o, space, p, plural, f, symbols):
-    """names / nesting / component spaces of the created functions against sympy.symbols"""
+def space_label(space, comps=None):
+    """name used in keys / messages; a one-component product is told apart from its component"""
+    if comps is not None and len(comps) == 1:
+        return 'prod(%s)' % comps[0].name
+    return str(space.name)
+
+
+def check_elements(o, space, p, plural, f, symbols, comps=None):
+    """names / nesting / component spaces of the created functions against sympy.symbols.
+    comps: the component spaces the product space was built from (the shape the caller intends; for a space
+    made by the harness it is not read back from the object)"""
     from sympde.topology.space import (ProductSpace, ScalarFunctionSpace, VectorFunctionSpace, ScalarFunction,
                                        VectorFunction)
     fname = 'elements_of' if plural else 'element_of'
-    key = '%s:%s:%r' % (fname, space.name, p)
+    sname = space_label(space, comps)
+    key = '%s:%s:%r' % (fname, sname, p)
     ref = call(symbols, p, seq=True) if (plural and isinstance(p, str)) else call(symbols, p)
     got = call(f, space, p)
     if ref[0] == 'err':
         if got[0] == 'ok':
-            return key, '%s(%s, %r) succeeded although sympy.symbols refuses the pattern (%s)' % (fname, space.name, p, type(ref[1]).__name__)
+            return key, '%s(%s, %r) succeeded although sympy.symbols refuses the pattern (%s)' % (fname, sname, p, type(ref[1]).__name__)
         if type(got[1]) is not type(ref[1]):
-            return key, '%s(%s, %r) raises %s, sympy.symbols raises %s' % (fname, space.name, p, type(got[1]).__name__, type(ref[1]).__name__)
+            return key, '%s(%s, %r) raises %s, sympy.symbols raises %s' % (fname, sname, p, type(got[1]).__name__, type(ref[1]).__name__)
         o.count(fname + ':refused-pattern')
         return None
     names = names_of(ref[1])
@@ -636,16 +690,22 @@ def check_elements(o, space, p, plural, f, symbols):
         cls = ScalarFunction if isinstance(sp, ScalarFunctionSpace) else VectorFunction
         return type(x) is cls and x.name == name and x.space is sp
 
+    def parts(sp, top):
+        if top and comps is not None:
+            return list(comps)
+        return list(sp.spaces) if isinstance(sp, ProductSpace) else None
+
     def expect(sp, ns, top):
         """returns ('ok', predicate) / ('refuse',) / ('skip',) for the shape (space, names)"""
+        cs = parts(sp, top)
         if isinstance(ns, str):
-            if isinstance(sp, ProductSpace):
+            if cs is not None:
                 return ('refuse',)
             return ('ok', lambda x: is_fn(x, sp, ns))
-        if isinstance(sp, ProductSpace):
-            if len(ns) != len(sp.spaces):
+        if cs is not None:
+            if len(ns) != len(cs):
                 return ('skip',)
-            subs = [expect(s, n, False) for s, n in zip(sp.spaces, ns)]
+            subs = [expect(s, n, False) for s, n in zip(cs, ns)]
             if any(s[0] == 'skip' for s in subs):
                 return ('skip',)
             if any(s[0] == 'refuse' for s in subs):
@@ -666,20 +726,22 @@ def check_elements(o, space, p, plural, f, symbols):
         return None
     if e[0] == 'refuse':
         if got[0] == 'ok':
-            return key, '%s(%s, %r) = %r although names %r do not fit the space' % (fname, space.name, p, got[1], names)
+            return key, '%s(%s, %r) = %r although names %r do not fit the space' % (fname, sname, p, got[1], names)
         o.count(fname + ':refused-shape')
         return None
     if got[0] == 'err':
-        return key, '%s(%s, %r) raises %s(%s); expected functions named %r' % (fname, space.name, p, type(got[1]).__name__, got[1], names)
+        return key, '%s(%s, %r) raises %s(%s); expected functions named %r' % (fname, sname, p, type(got[1]).__name__, got[1], names)
     if not e[1](got[1]):
         def desc(x):
             if isinstance(x, (list, tuple)):
                 return type(x)(desc(y) for y in x)
             return '%s:%s in %s' % (type(x).__name__, getattr(x, 'name', '?'), getattr(getattr(x, 'space', None), 'name', '?'))
         return key, '%s(%s, %r) = %r; expected names/nesting %r with component spaces %s' % (
-            fname, space.name, p, desc(got[1]), names,
-            [s.name for s in space.spaces] if isinstance(space, ProductSpace) else space.name)
+            fname, sname, p, desc(got[1]), names,
+            [s.name for s in parts(space, True)] if parts(space, True) is not None else space.name)
     o.count(fname + ':ok')
+    if comps is not None and len(comps) == 1:
+        o.count(fname + ':ok:one-component-product')
     return None
 
 
@@ -699,9 +761,70 @@ ELEM_FIXED = [('u', 'u'), ('  u ', 'u'), ('\tu\n', 'u'), ('u\\ v', 'u v'), ('u\\
               (' , ', ValueError), ('u:', ValueError), ('u,,v', ValueError)]
 
 
+# product spaces with ONE component: (pattern, expected element_of, expected elements_of), worked out by hand from
+# space.py:43-123: the result is the container of the names (same type) holding one entry for the one component —
+# a function of that component for a name, for elements_of a container of such functions for a container;
+# otherwise the exception class (Exception: any error — ProductSpace.element is not implemented)
+ONE_FIXED = [('u,', ('u',), ('u',)), ('u ,', ('u',), ('u',)), (' u , ', ('u',), ('u',)), ('\tu,\n', ('u',), ('u',)),
+             (['u'], ['u'], ['u']), (('w',), ('w',), ('w',)), ([' u '], ['u'], ['u']),
+             ('w:1', ('w0',), ('w0',)), ('x0:1', ('x0',), ('x0',)), ('q(3:4)', ('q3',), ('q3',)), ('q_(3:4)', ('q_3',), ('q_3',)),
+             ('a:a', ('a',), ('a',)), (':a', ('a',), ('a',)), ('p(b:b)', ('pb',), ('pb',)), ('w:1,', ('w0',), ('w0',)),
+             ('u\\ v,', ('u v',), ('u v',)), (['u\\,v'], ['u,v'], ['u,v']), (('p\\:q',), ('p:q',), ('p:q',)),
+             ('u', Exception, ('u',)), ('u\\ v', Exception, ('u v',)), ('  u ', Exception, ('u',)),
+             (['u:1'], ValueError, [('u0',)]), (['u,'], ValueError, [('u',)]), ([('u',)], ValueError, [('u',)]),
+             ([['u', 'v']], ValueError, [['u', 'v']]), (('a:c',), ValueError, (('a', 'b', 'c'),)),
+             ('', ValueError, ValueError), (',', ValueError, ValueError), ([''], ValueError, ValueError), ('u:', ValueError, ValueError)]
+
+
+def fn_in(x, sp, name):
+    from sympde.topology.space import ScalarFunctionSpace, ScalarFunction, VectorFunction
+    cls = ScalarFunction if isinstance(sp, ScalarFunctionSpace) else VectorFunction
+    return type(x) is cls and x.name == name and x.space is sp
+
+
+def desc_elem(x):
+    if isinstance(x, (list, tuple)):
+        return type(x)(desc_elem(y) for y in x)
+    if isinstance(x, Exception):
+        return '%s(%s)' % (type(x).__name__, x)
+    return '%s:%r in %s' % (type(x).__name__, getattr(x, 'name', '?'), getattr(getattr(x, 'space', None), 'name', '?'))
+
+
+def check_one(o, P, comp, p, want, plural, f, symbols):
+    """one fixed case on the one-component product P of comp; returns (key, what) or None"""
+    fname = 'elements_of' if plural else 'element_of'
+    label = space_label(P, [comp])
+    key = 'one-fixed:%s:%s:%r' % (fname, label, p)
+
+    def match(x, w):
+        if isinstance(w, str):
+            return fn_in(x, comp, w)
+        return type(x) is type(w) and len(x) == len(w) and all(match(y, v) for y, v in zip(x, w))
+
+    if not isinstance(want, type):
+        # the hand-made expectation is what sympy.symbols names
+        ref = call(symbols, p, seq=True) if (plural and isinstance(p, str)) else call(symbols, p)
+        if ref[0] != 'ok' or names_of(ref[1]) != want or type(names_of(ref[1])) is not type(want):
+            return 'one-fixed-reference:%s:%r' % (fname, p), 'the hand-made expectation %r for the pattern %r (%s) does not agree with sympy.symbols (%r)' % (
+                want, p, fname, ref[1])
+    r = call(f, P, p)
+    if isinstance(want, type):
+        ok = r[0] == 'err' and isinstance(r[1], want)
+        wtxt = want.__name__ if want is not Exception else 'an error'
+    else:
+        ok = r[0] == 'ok' and type(r[1]) is type(want) and len(r[1]) == 1 and match(r[1], want)
+        wtxt = 'the %s %r of function(s) in the component %s' % (type(want).__name__, want, comp.name)
+    if not ok:
+        return key, '%s(%s, %r) = %s; %s is the product space with the single component %s: expected %s' % (
+            fname, label, p, desc_elem(r[1]), label, comp.name, wtxt)
+    o.count('one-fixed:%s:%s' % (fname, 'ok' if r[0] == 'ok' else 'refused'))
+    return None
+
+
 def check_words(o, spaces, pat, names, tcomma, expand, element_of, elements_of):
     """the pattern was assembled from the intended names: the expected results follow from the construction
-    alone (neither sympy nor the model is consulted).  Returns a list of (key, what, op)"""
+    alone (neither sympy nor the model is consulted).  spaces: (space, components the product was built from or
+    None).  Returns a list of (key, what, op)"""
     from sympde.topology.space import ProductSpace, ScalarFunctionSpace, ScalarFunction, VectorFunction
     bad = []
     k = len(names)
@@ -736,8 +859,9 @@ def check_words(o, spaces, pat, names, tcomma, expand, element_of, elements_of):
                             pat, kw, desc(r[1]) if r[0] == 'err' else repr(r[1]), k, names, ' and a trailing comma' if tcomma else '', want), 'expand'))
         else:
             o.count('words:expand')
-    for sp in spaces:
-        prod = isinstance(sp, ProductSpace)
+    for sp, comps in spaces:
+        prod = comps is not None
+        sname = space_label(sp, comps)
         # element_of: exactly one name for a scalar / vector space, as many names as components for a product
         r = call(element_of, sp, pat)
         if not prod:
@@ -749,16 +873,16 @@ def check_words(o, spaces, pat, names, tcomma, expand, element_of, elements_of):
             ok, want = (r[0] == 'err' and type(r[1]) is ValueError), 'ValueError (no name)'
         elif k == 1 and not tcomma:
             ok, want = r[0] == 'err', 'an error (one bare name for a product space)'
-        elif k == len(sp.spaces):
-            ok = r[0] == 'ok' and type(r[1]) is tuple and len(r[1]) == k and all(fn_ok(x, c, n) for x, c, n in zip(r[1], sp.spaces, names))
-            want = 'the tuple of functions named %r in %s' % (names, [c.name for c in sp.spaces])
+        elif k == len(comps):
+            ok = r[0] == 'ok' and type(r[1]) is tuple and len(r[1]) == k and all(fn_ok(x, c, n) for x, c, n in zip(r[1], comps, names))
+            want = 'the tuple of functions named %r in %s' % (names, [c.name for c in comps])
         else:
             ok, want = None, ''     # zip() truncates: documented, not judged
         if ok is None:
             o.count('words:length-mismatch-not-judged')
         elif not ok:
-            bad.append(('words-element_of:%s:%r' % (sp.name, pat), 'element_of(%s, %r) = %s; the pattern is made of the %d name(s) %r%s: expected %s' % (
-                sp.name, pat, desc(r[1]), k, names, ' and a trailing comma' if tcomma else '', want), 'elem'))
+            bad.append(('words-element_of:%s:%r' % (sname, pat), 'element_of(%s, %r) = %s; the pattern is made of the %d name(s) %r%s: expected %s' % (
+                sname, pat, desc(r[1]), k, names, ' and a trailing comma' if tcomma else '', want), 'elem'))
         else:
             o.count('words:element_of:' + ('ok' if r[0] == 'ok' else 'refused'))
         # elements_of: one function per name, always a tuple
@@ -768,16 +892,16 @@ def check_words(o, spaces, pat, names, tcomma, expand, element_of, elements_of):
         elif not prod:
             ok = r[0] == 'ok' and type(r[1]) is tuple and len(r[1]) == k and all(fn_ok(x, sp, n) for x, n in zip(r[1], names))
             want = 'the tuple of %d function(s) named %r' % (k, names)
-        elif k == len(sp.spaces):
-            ok = r[0] == 'ok' and type(r[1]) is tuple and len(r[1]) == k and all(fn_ok(x, c, n) for x, c, n in zip(r[1], sp.spaces, names))
-            want = 'the tuple of functions named %r in %s' % (names, [c.name for c in sp.spaces])
+        elif k == len(comps):
+            ok = r[0] == 'ok' and type(r[1]) is tuple and len(r[1]) == k and all(fn_ok(x, c, n) for x, c, n in zip(r[1], comps, names))
+            want = 'the tuple of functions named %r in %s' % (names, [c.name for c in comps])
         else:
             ok = None
         if ok is None:
             o.count('words:length-mismatch-not-judged')
         elif not ok:
-            bad.append(('words-elements_of:%s:%r' % (sp.name, pat), 'elements_of(%s, %r) = %s; the pattern is made of the %d name(s) %r: expected %s' % (
-                sp.name, pat, desc(r[1]), k, names, want), 'elems'))
+            bad.append(('words-elements_of:%s:%r' % (sname, pat), 'elements_of(%s, %r) = %s; the pattern is made of the %d name(s) %r: expected %s' % (
+                sname, pat, desc(r[1]), k, names, want), 'elems'))
         else:
             o.count('words:elements_of:' + ('ok' if r[0] == 'ok' else 'refused'))
     return bad
@@ -842,8 +966,13 @@ def oracle(ctx, factor, seeds):
 
     # element_of / elements_of
     sp = Spaces()
-    fixed_spaces = [x for x, _ in sp.fixed()]
-    simple = fixed_spaces[:2]
+    fixed3 = sp.fixed()
+    fixed_spaces = [(x, cs) for x, _, cs in fixed3]       # (space, components it was built from / None)
+    simple = [x for x, _ in fixed_spaces[:2]]
+    ones = [(x, cs[0]) for x, cs in fixed_spaces if cs is not None and len(cs) == 1]
+
+    def where(space, comps):
+        return [c.name for c in comps] if comps is not None else space.name
     # (i) the single-name entry point, expectations worked out by hand (element_of on a scalar and a vector space)
     for p, want in ELEM_FIXED:
         ref = call(symbols, p)
@@ -868,21 +997,42 @@ def oracle(ctx, factor, seeds):
                     names_of(ref[1]) if ref[0] == 'ok' else type(ref[1]).__name__), pattern=p, op='elem', space=space.name)
             else:
                 o.count('elem-fixed:' + ('ok' if isinstance(want, str) else 'refused'))
-        for space in fixed_spaces:
+        for space, comps in fixed_spaces:
             for plural, f in ((False, element_of), (True, elements_of)):
                 o.evaluations += 1
-                bad = check_elements(o, space, p, plural, f, symbols)
+                bad = check_elements(o, space, p, plural, f, symbols, comps)
                 if bad:
-                    o.fail(bad[0], bad[1], pattern=p, op='elems' if plural else 'elem',
-                           space=[s.name for s in space.spaces] if isinstance(space, ProductSpace) else space.name)
+                    o.fail(bad[0], bad[1], pattern=p, op='elems' if plural else 'elem', space=where(space, comps))
+    # (i') product spaces with one component: the fitting names are a singleton container / a pattern denoting a
+    # 1-tuple; expectations by hand, cross-checked against sympy.symbols, then every fixed space against sympy
+    for p, want1, wantn in ONE_FIXED:
+        for P, comp in ones:
+            for plural, f, want in ((False, element_of, want1), (True, elements_of, wantn)):
+                o.evaluations += 1
+                bad = check_one(o, P, comp, p, want, plural, f, symbols)
+                if bad:
+                    o.fail(bad[0], bad[1], pattern=p, op='elems' if plural else 'elem', space=[comp.name])
+        for space, comps in fixed_spaces:
+            for plural, f in ((False, element_of), (True, elements_of)):
+                o.evaluations += 1
+                bad = check_elements(o, space, p, plural, f, symbols, comps)
+                if bad:
+                    o.fail(bad[0], bad[1], pattern=p, op='elems' if plural else 'elem', space=where(space, comps))
     # (ii) patterns assembled from intended names: by construction, and against sympy.symbols
     for i in range((6000 if ctx.thorough else 800) * factor):
-        spaces = fixed_spaces if i % 4 == 0 else [sp.random(rng)[0] for _ in range(2)]
-        spaces = [x for x in spaces if hasattr(x, 'name')]
-        k = None
-        if spaces and isinstance(spaces[0], ProductSpace) and rng.random() < 0.5:
-            k = len(spaces[0].spaces)
-        pat, names, tcomma = g.words(k)
+        if i % 4 == 0:
+            spaces = fixed_spaces
+        else:
+            spaces = [(x, sp.comps(ser)) for x, ser in (sp.random(rng) for _ in range(2))]
+        spaces = [(x, cs) for x, cs in spaces if hasattr(x, 'name')]
+        k, tc = None, None
+        if spaces and spaces[0][1] is not None and rng.random() < 0.5:
+            k = len(spaces[0][1])
+        elif any(cs is not None and len(cs) == 1 for _, cs in spaces) and rng.random() < 0.5:
+            k = 1
+        if k == 1:
+            tc = rng.random() < 0.6      # one name + trailing comma: the 1-tuple a one-component product needs
+        pat, names, tcomma = g.words(k, tcomma=tc)
         o.evaluations += 3 + 2 * len(spaces)
         for key, what, op in check_words(o, spaces, pat, names, tcomma, expand_name_patterns, element_of, elements_of):
             o.fail(key, what, pattern=pat, op=op, names=names)
@@ -890,25 +1040,26 @@ def oracle(ctx, factor, seeds):
             bad = check_pattern(o, pat, kw, expand_name_patterns, symbols)
             if bad:
                 o.fail(bad[0], bad[1], pattern=pat, kw=kw, op='expand')
-        for space in spaces:
+        for space, comps in spaces:
             for plural, f in ((False, element_of), (True, elements_of)):
                 o.evaluations += 1
-                bad = check_elements(o, space, pat, plural, f, symbols)
+                bad = check_elements(o, space, pat, plural, f, symbols, comps)
                 if bad:
-                    o.fail(bad[0], bad[1], pattern=pat, op='elems' if plural else 'elem',
-                           space=[s.name for s in space.spaces] if isinstance(space, ProductSpace) else space.name)
+                    o.fail(bad[0], bad[1], pattern=pat, op='elems' if plural else 'elem', space=where(space, comps))
     ne = (8000 if ctx.thorough else 1000) * factor
-    extra = [(sp.S[0], 'u'), (sp.V[0], 'F'), (sp.S[0], 'u, v'), (sp.S[0] * sp.V[0], 'u, F'), (sp.S[0] * sp.V[0] * sp.S[1], 'p:3'),
-             (sp.V[1] * sp.S[2], ['a:2', 'b:3']), (sp.S[1], ['u', 'v:2'])]
+    extra = [(sp.S[0], None, 'u'), (sp.V[0], None, 'F'), (sp.S[0], None, 'u, v'), (sp.S[0] * sp.V[0], [sp.S[0], sp.V[0]], 'u, F'),
+             (sp.S[0] * sp.V[0] * sp.S[1], [sp.S[0], sp.V[0], sp.S[1]], 'p:3'),
+             (sp.V[1] * sp.S[2], [sp.V[1], sp.S[2]], ['a:2', 'b:3']), (sp.S[1], None, ['u', 'v:2'])]
     for s in seeds or []:
         if isinstance(s, dict) and s.get('op') in ('elem', 'elems') and s.get('pattern') is not None:
-            for spc in (sp.S[0], sp.V[0], sp.S[0] * sp.V[0], sp.S[0] * sp.V[0] * sp.S[1]):
-                extra.append((spc, s['pattern']))
+            for spc, cs in fixed_spaces:
+                extra.append((spc, cs, s['pattern']))
     for i in range(ne + len(extra)):
         if i < len(extra):
-            space, p = extra[i]
+            space, comps, p = extra[i]
         else:
-            space, _ = sp.random(rng)
+            space, sser = sp.random(rng)
+            comps = sp.comps(sser)
             if not hasattr(space, 'name'):
                 for f in (element_of, elements_of):
                     o.evaluations += 1
@@ -918,16 +1069,15 @@ def oracle(ctx, factor, seeds):
                     else:
                         o.count('notspace-refused')
                 continue
-            p = sp.names_for(g, rng, space)
+            p = sp.names_for(g, rng, space, comps)
         if isinstance(p, str) and too_big(p):
             continue
         for plural, f in ((False, element_of), (True, elements_of)):
             o.evaluations += 1
-            bad = check_elements(o, space, p, plural, f, symbols)
+            bad = check_elements(o, space, p, plural, f, symbols, comps)
             if bad:
-                o.fail(bad[0], bad[1], pattern=p, op='elems' if plural else 'elem',
-                       space=[s.name for s in space.spaces] if isinstance(space, ProductSpace) else space.name)
-        if len(o.samples) < 4 and isinstance(space, ProductSpace):
+                o.fail(bad[0], bad[1], pattern=p, op='elems' if plural else 'elem', space=where(space, comps))
+        if len(o.samples) < 4 and comps is not None:
             r = call(element_of, space, p)
             o.samples.append({'space': str(space.name), 'pattern': repr(p), 'element_of': repr(r[1])})
     return o
@@ -955,9 +1105,9 @@ def replay(ctx, path):
     if det.get('op') in ('elem', 'elems'):
         from sympde.topology import element_of, elements_of
         sp = Spaces()
-        for space in (sp.S[0], sp.V[0], sp.S[0] * sp.V[0], sp.S[0] * sp.V[0] * sp.S[1]):
+        for space, _, comps in sp.fixed():
             for plural, f in ((False, element_of), (True, elements_of)):
-                bad = check_elements(o, space, thaw(p), plural, f, symbols)
+                bad = check_elements(o, space, thaw(p), plural, f, symbols, comps)
                 if bad:
                     print('REPLAY: still failing:', bad[1])
                     rc = 1
